@@ -15,14 +15,17 @@ _LEAN_TARGETS = ["FalconProofs.Props.C20", "fvd_c20"]
 PROPS_MODULE = "FalconProofs.Props.C20"
 LEVEL = "proof"
 SHARDS = {"quick": 1, "thorough": 1}       # the table is finite: one pass enumerates it completely
-RULE = ("exhaustive: one request per (architecture, field) for the seven architectures x 20 fields — the 10 descriptor/"
+RULE = ("exhaustive: one request per (architecture, field) for the seven architectures x 24 fields — the 10 descriptor/"
         "calling-convention fields, 6 observations of the translator (scalars of a register sweep: mov r,r for every GPR and "
         "sub-register, xmm moves, addu/mfhi/mflo, mr/add/mflr/mtlr/mtctr/cmpwi, mov xN/wN, add sp, ldr/str qN; instruction "
-        "fetch order; bytes of a lifted store of 0x11223344; address widths of a lifted load and store) and 4 judgements "
-        "(sp emitted, convention registers not emitted, registers both preserved and trashed, sp preserved). falcon's answer "
-        "is read from the live build, the model's from the regenerated table the theorems were proved about, the "
-        "specification's from the hand-written ABI table; distinct = distinct request; non-trivial = every request except "
-        "the informational `sweep_failed`")
+        "fetch order; bytes of a lifted store of 0x11223344; address widths of a lifted load and store), 4 judgements "
+        "(sp emitted, convention registers not emitted, registers both preserved and trashed, sp preserved) and 4 query "
+        "fields (argument_type(n) for n = 0..=argument registers+6; the offsets of the stack answers among them; "
+        "is_preserved and is_trashed for every register of preserved/trashed/arguments/return/stack pointer, every sweep "
+        "scalar and one register in neither set). falcon's answer is read from the live build, the model's from the "
+        "regenerated table the theorems were proved about, the specification's from the hand-written ABI table (for the "
+        "two is_* fields: from the table's own sets, as the code documents); distinct = distinct request; non-trivial = "
+        "every request except the informational `sweep_failed`")
 TRUSTED = [
     "specification: lean/FalconModel/Abi.lean — hand-written from the System V i386 / AMD64 / MIPS o32 / PowerPC-32 "
     "supplements and AAPCS64 (integer argument registers in order, return register, return-address location, offset of "
